@@ -42,6 +42,13 @@
       rotations; `c01_model_kernels` / `c01_model_sort_lt` below discharge `conv_spec`, `back_spec`, `assemble_spec`, `select_lt`
       and `sort_lt` for the executable record.
       The hypotheses are spelled out as the structures `ExactKernels` / `ExactOrth` and shown satisfiable below;
+      DISCHARGE (section "the executable kernels satisfy the kernel specifications", end of file): `ExactKernels` as stated
+      (specifications for EVERY object `fac`, every `factorize a b`, every `restartFac k`) is NOT satisfiable by the numeric kernels
+      (malformed arrays; `factorize a b` with `a < k` truncates and keeps a stale residual; `restartFac 0`), so the specifications
+      are relativised to an invariant the kernels preserve as `compute()`/`init()` call them (`ExactKernelsOn`, `c01_histories_on`),
+      and THAT is discharged for `HermSolver.hermKern` at `scOfField F` (`c01_hermKern_kernels`, `c01_histories_hermKern`):
+      remaining hypotheses = exact sqrt, ideal rotations, `Sc.eps = 0` (deflation drops only exact zeros), `M` symmetric, the
+      run-level "no breakdown" set (`C01H.Reg`), and `eig_spec` (`C01H.EigSpec`, whole-run similarity of TridiagEigen);
     * orthonormality of the basis `V` in floating point is FALSE for the code as it is on weak hand-overs / under the absolute
       breakdown thresholds (known findings F12*, see known_findings/C01.json): (2) takes `VᴴV = I` as a hypothesis.
 -/
@@ -58,6 +65,8 @@ import SpectraVerif.Proofs.C01ExactOrth
 import SpectraVerif.Proofs.C01Model
 import SpectraVerif.Proofs.C01Sort
 import SpectraVerif.Proofs.C01Toy
+import SpectraVerif.Proofs.C01DischargeOn
+import SpectraVerif.Proofs.C01DischargeHerm
 
 set_option linter.unusedSectionVars false
 set_option linter.unusedVariables false
@@ -316,6 +325,108 @@ theorem c01_model_sort_lt (rule : Int) (vals : List K) (n : Nat) (ind : List Nat
 
 end model
 
+
+/-! ### the executable kernels satisfy the (relativised) kernel specifications -/
+
+section discharge
+open C01H C07L
+variable {φ ρ ε κ β τ ω : Type} {F : Type} [Field F] [LinearOrder F] [IsStrictOrderedRing F]
+  {K : Kern φ ρ ε κ β τ ω} {c : Cfg} {n : ℕ} {M : Matrix (Fin n) (Fin n) F} {eps23 : F} {Inv : φ → Prop} {Start : β → Prop}
+
+/-- **Every history, relativised** (`ExactKernelsOn`: the kernel specifications are required only on an invariant `Inv` that
+    `facInit` (for start vectors in `Start`), `factorize (max 1 dim) ncv` and `restartFac k` (`0 < k < ncv`, on a full factorization)
+    preserve — the only calls `Orch.init`/`Orch.compute` make).  Same conclusion as `c01_histories`. -/
+theorem c01_histories_on (X : ExactKernelsOn K c n M eps23 Inv Start) (hist : List (Call β τ)) (hS : StartsOk Start hist)
+    (s0 : St φ ρ ε κ) (h0 : Inv s0.fac) (sel : Int) (maxit : Nat) (tol : τ) (sorting : Int) (r : Nat)
+    (h : (compute K c sel maxit tol sorting (Orch.run K c s0 hist)).out = .ok r) :
+    let s' := (compute K c sel maxit tol sorting (Orch.run K c s0 hist)).st
+    ∀ i ∈ convIdx c s',
+      ∃ ν : F, X.val (s'.ritzVal.getD i K.zeroρ) = X.back ν ∧
+        nsq (M *ᵥ X.out (K.assemble s'.fac (s'.ritzVec.getD i K.zeroκ)) - ν • X.out (K.assemble s'.fac (s'.ritzVec.getD i K.zeroκ)))
+          < (X.tolv tol * max eps23 |ν|) ^ 2 :=
+  histories_on X hist hS s0 h0 sel maxit tol sorting r h
+
+/-- orthonormality of the returned vectors, relativised (`ExactOrthOn`) -/
+theorem c01_histories_orth_on (X : ExactKernelsOn K c n M eps23 Inv Start) (O : ExactOrthOn X) (hist : List (Call β τ))
+    (hS : StartsOk Start hist) (s0 : St φ ρ ε κ) (h0 : Inv s0.fac) (sel : Int) (maxit : Nat) (tol : τ) (sorting : Int) (r : Nat)
+    (h : (compute K c sel maxit tol sorting (Orch.run K c s0 hist)).out = .ok r) :
+    let s' := (compute K c sel maxit tol sorting (Orch.run K c s0 hist)).st
+    ∀ i ∈ convIdx c s', ∀ i' ∈ convIdx c s',
+      X.out (K.assemble s'.fac (s'.ritzVec.getD i K.zeroκ)) ⬝ᵥ X.out (K.assemble s'.fac (s'.ritzVec.getD i' K.zeroκ))
+        = if i = i' then 1 else 0 :=
+  histories_orth_on X O hist hS s0 h0 sel maxit tol sorting r h
+
+end discharge
+
+section hermKern
+open C01H C07L
+variable {K : Type} [Field K] [LinearOrder K] [IsStrictOrderedRing K] (F : FieldFns K)
+
+/-- **The kernel specifications hold for `HermSolver.hermKern`** (`Arnoldi.init`, `Lanczos.factorize_from`, `HermSolver.restartFac`,
+    `convTest`, `assemble`, the sort wrappers, `nev_adjusted`) at `scOfField F` on the invariant
+    `HInv = PassInv (shapes, Krylov relation, VᵀV = I, Vᵀf = 0, beta = ‖f‖, H symmetric tridiagonal) ∧ G`:
+    all `ExactKernelsOn` fields — `inv_good`, `inv_init`, `inv_factorize`, `factorize_full`, `inv_restart`, `nevAdj_pos`, `fnorm_spec`,
+    `select_lt`, `sort_lt`, `conv_spec`, `assemble_spec`, `back_spec` — are PROVED (C07 model-level run theorems + C08 `shiftLoop_spec` +
+    C13 + C18); `eig_spec` is the hypothesis `hEig`.  Hypotheses: `hsqrt` exact square root; `hcut` ideal rotations (series branch of
+    `compute_rotation` off); `heps : Sc.eps = 0` both TridiagQR deflation passes drop only exact zeros; `hM` symmetric; `hR` the
+    run-level regular set (no breakdown: `beta ≥ near_0`, `beta ≠ 0` at every pass; `‖A v0‖ ≠ 0` and no `f := 0` shortcut in `init`). -/
+theorem c01_hermKern_kernels (hsqrt : ∀ x : K, 0 ≤ x → F.sqrt x * F.sqrt x = x ∧ 0 ≤ F.sqrt x) (hcut : C08Givens.cutoff F ≤ 0)
+    (heps : F.eps = 0) (op : Arnoldi.Op K) (c : Cfg) (eps23 : K) (back : K → K) (n : ℕ) (M : Matrix (Fin n) (Fin n) K) (hM : Mᵀ = M)
+    (G : (letI := scOfField F; Arnoldi.State K) → Prop) (S : Lin.Vec K → Prop)
+    (hop : (letI := scOfField F; OpOK n op (C01B.opOf M)))
+    (hR : (letI := scOfField F; Reg op n c.ncv (C01B.opOf M) G S)) (h1 : 1 ≤ c.nev) (h2 : c.nev < c.ncv)
+    (hEig : (letI := scOfField F; EigSpec c n (C01B.opOf M))) :
+    (letI := scOfField F;
+      Nonempty (ExactKernelsOn (HermSolver.hermKern op c eps23 back) c n M eps23 (HInv n c.ncv (C01B.opOf M) G) S)) :=
+  ⟨hermXF F hsqrt hcut heps op c eps23 back n M hM G S hop hR h1 h2 hEig⟩
+
+/-- **Every history, for the executable numeric kernels.**  After ANY sequence of `init()` (start vectors in `S`) / `compute()` calls
+    on the model solver `Orch.compute (hermKern …)` — the definitions the driver runs at `Float` against the real classes — started
+    from an object whose factorization satisfies the invariant (e.g. the freshly constructed one: `c01_hermKern_fresh`), a `compute()`
+    that returns hands back at every flagged position `i` the value `back ν` and the vector `x = V y` with
+    `‖M x − ν x‖² < (tol · max(eps23, |ν|))²`.  Remaining hypotheses as in `c01_hermKern_kernels`. -/
+theorem c01_histories_hermKern (hsqrt : ∀ x : K, 0 ≤ x → F.sqrt x * F.sqrt x = x ∧ 0 ≤ F.sqrt x) (hcut : C08Givens.cutoff F ≤ 0)
+    (heps : F.eps = 0) (op : Arnoldi.Op K) (c : Cfg) (eps23 : K) (back : K → K) (n : ℕ) (M : Matrix (Fin n) (Fin n) K) (hM : Mᵀ = M)
+    (G : (letI := scOfField F; Arnoldi.State K) → Prop) (S : Lin.Vec K → Prop)
+    (hop : (letI := scOfField F; OpOK n op (C01B.opOf M)))
+    (hR : (letI := scOfField F; Reg op n c.ncv (C01B.opOf M) G S)) (h1 : 1 ≤ c.nev) (h2 : c.nev < c.ncv)
+    (hEig : (letI := scOfField F; EigSpec c n (C01B.opOf M))) :
+    letI := scOfField F
+    ∀ (hist : List (Call (Lin.Vec K) K)) (hS : StartsOk S hist) (s0 : St (Arnoldi.State K) K K (Lin.Vec K))
+      (h0 : HInv n c.ncv (C01B.opOf M) G s0.fac) (sel : Int) (maxit : Nat) (tol : K) (sorting : Int) (r : Nat)
+      (h : (compute (HermSolver.hermKern op c eps23 back) c sel maxit tol sorting
+              (Orch.run (HermSolver.hermKern op c eps23 back) c s0 hist)).out = .ok r),
+      let s' := (compute (HermSolver.hermKern op c eps23 back) c sel maxit tol sorting
+              (Orch.run (HermSolver.hermKern op c eps23 back) c s0 hist)).st
+      ∀ i ∈ convIdx c s', ∃ ν : K, s'.ritzVal.getD i Lin.zero = back ν ∧
+        nsq (M *ᵥ C07.vecOf n (HermSolver.assemble c.ncv s'.fac (s'.ritzVec.getD i (Lin.vzero c.ncv)))
+              - ν • C07.vecOf n (HermSolver.assemble c.ncv s'.fac (s'.ritzVec.getD i (Lin.vzero c.ncv))))
+          < (tol * max eps23 |ν|) ^ 2 :=
+  histories_hermKern F hsqrt hcut heps op c eps23 back n M hM G S hop hR h1 h2 hEig
+
+/-- the Krylov relation, `VᵀV = I`, `Vᵀf = 0`, `beta = ‖f‖` hold for the model solver's factorization after EVERY such history, on
+    every path (also after an escaping exception) -/
+theorem c01_invariant_hermKern (hsqrt : ∀ x : K, 0 ≤ x → F.sqrt x * F.sqrt x = x ∧ 0 ≤ F.sqrt x) (hcut : C08Givens.cutoff F ≤ 0)
+    (heps : F.eps = 0) (op : Arnoldi.Op K) (c : Cfg) (eps23 : K) (back : K → K) (n : ℕ) (M : Matrix (Fin n) (Fin n) K) (hM : Mᵀ = M)
+    (G : (letI := scOfField F; Arnoldi.State K) → Prop) (S : Lin.Vec K → Prop)
+    (hop : (letI := scOfField F; OpOK n op (C01B.opOf M)))
+    (hR : (letI := scOfField F; Reg op n c.ncv (C01B.opOf M) G S)) (h1 : 1 ≤ c.nev) (h2 : c.nev < c.ncv)
+    (hEig : (letI := scOfField F; EigSpec c n (C01B.opOf M))) :
+    letI := scOfField F
+    ∀ (hist : List (Call (Lin.Vec K) K)) (hS : StartsOk S hist) (s0 : St (Arnoldi.State K) K K (Lin.Vec K))
+      (h0 : HInv n c.ncv (C01B.opOf M) G s0.fac),
+      PassInv n c.ncv (C01B.opOf M) (Orch.run (HermSolver.hermKern op c eps23 back) c s0 hist).fac
+        (Orch.run (HermSolver.hermKern op c eps23 back) c s0 hist).fac.k :=
+  invariant_hermKern F hsqrt hcut heps op c eps23 back n M hM G S hop hR h1 h2 hEig
+
+/-- the freshly constructed factorization object (`m_k = 0`) satisfies the array/Krylov part of the invariant -/
+theorem c01_hermKern_fresh (hsqrt : ∀ x : K, 0 ≤ x → F.sqrt x * F.sqrt x = x ∧ 0 ≤ F.sqrt x) (n m : ℕ)
+    (A : (Fin n → K) →ₗ[K] (Fin n → K)) (near0 eps : K) (heps : 0 ≤ eps) :
+    (letI := scOfField F; PassInv n m A (Arnoldi.State.mk0 n m near0 eps) 0) :=
+  fresh_passInv F hsqrt n m A near0 eps heps
+
+end hermKern
+
 /-! ### the hypotheses are satisfiable; a run through the theorems -/
 
 section examples
@@ -337,6 +448,37 @@ example :
   refine ⟨hrun, ?_⟩
   intro i hi
   exact c01_histories_sym toyX (fun _ => rfl) [Call.init (), Call.compute 0 5 () 0] (construct ()) toy_good 0 5 () 0 1 hrun i hi
+
+/-- the hypotheses of `c01_histories_hermKern` are CONSISTENT (together with the start invariant `h0` for the freshly constructed
+    object): over `ℝ` with `Real.sqrt`, a `pow` that switches the series branch off and `eps = 0`; witness with the trivial operator on
+    `ℝ⁰` (`ncv = 2`, `nev = 1`), `G` = "dimension 0", no admissible start vector — there `EigSpec` and `Reg` hold because no full
+    factorization exists.  (A witness with a non-trivial run needs `eig_spec` for the real `TridiagEigen`, the open item.) -/
+example : ∃ F : FieldFns ℝ, (∀ x : ℝ, 0 ≤ x → F.sqrt x * F.sqrt x = x ∧ 0 ≤ F.sqrt x) ∧ C08Givens.cutoff F ≤ 0 ∧ F.eps = 0 ∧
+    ∃ (op : Arnoldi.Op ℝ) (M : Matrix (Fin 0) (Fin 0) ℝ) (G : (letI := scOfField F; Arnoldi.State ℝ) → Prop) (S : Lin.Vec ℝ → Prop),
+      Mᵀ = M ∧ (letI := scOfField F; C07L.OpOK 0 op (C01B.opOf M)) ∧
+      (letI := scOfField F; C01H.Reg op 0 2 (C01B.opOf M) G S) ∧
+      (letI := scOfField F; C01H.EigSpec ⟨0, 1, 2⟩ 0 (C01B.opOf M)) ∧
+      (letI := scOfField F; C01H.HInv 0 2 (C01B.opOf M) G (Arnoldi.State.mk0 0 2 1 0)) := by
+  let F0 : FieldFns ℝ := ⟨Real.sqrt, fun _ _ => 0, 0, 1⟩
+  letI : Sc ℝ := scOfField F0
+  have hs : ∀ x : ℝ, 0 ≤ x → F0.sqrt x * F0.sqrt x = x ∧ 0 ≤ F0.sqrt x :=
+    fun x hx => ⟨Real.mul_self_sqrt hx, Real.sqrt_nonneg x⟩
+  refine ⟨F0, hs, by simp [C08Givens.cutoff, F0], rfl, ⟨0, fun _ => #[], none⟩, 0,
+    fun (s : Arnoldi.State ℝ) => s.k = 0, fun _ => False, ?_, ?_, ?_, ?_, ?_⟩
+  · ext i; exact i.elim0
+  · exact ⟨rfl, fun x _ => by funext r; exact r.elim0, fun x => rfl⟩
+  · refine ⟨fun v0 h => h.elim, fun s v0 s' _ h => h.elim, ?_, ?_⟩
+    · intro s hG _ h1 _
+      have : s.k = 0 := hG
+      omega
+    · intro s k vals hG _ hk _ _
+      have : s.k = 0 := hG
+      omega
+  · intro s evals lastRow cols hI
+    exfalso
+    have := hI.on 0 (by norm_num) 0 (by norm_num)
+    simp [C01E.dotIP, dotProduct] at this
+  · exact ⟨C01H.fresh_passInv F0 hs 0 2 _ 1 0 (le_refl 0), rfl⟩
 
 /-- **Why `β = ‖f‖` cannot be dropped from (1)** — the exact-arithmetic face of known finding F12-C01-residual-abs.  The shortcut
     `beta < eps*sqrt(n) ⇒ f := 0, beta := 0` of `Lanczos::factorize_from` makes `β` stop being the norm of the residual the relation
